@@ -111,6 +111,7 @@ fn parts_generated<S: Setup>(seed: u64, idx: usize) -> Option<Parts> {
         connect_pct: 26,
         clean: idx % 2 == 0,
         recompose_npo: matches!(S::D, 2 | 4 | 5) && rng.random_range(0..3u32) == 0,
+        recompose_variants: true,
         ..Default::default()
     };
     let g = gen_prog::<S>(&mut rng, &opts);
@@ -118,6 +119,7 @@ fn parts_generated<S: Setup>(seed: u64, idx: usize) -> Option<Parts> {
     let built = guarded(|| build::<S>(&g.prog)).ok()?.ok()?;
     let mut parts = circuit_parts(&built.circuit);
     let recompose = g.prog.recompose_npo;
+    let _rc = p3r_verif::fields::RecomposeCfg::set(g.prog.recompose_cfg());
     match guarded(|| S::prep_x(&built.circuit, &cfg.packing(), cfg.profile(), recompose)) {
         Ok(Ok(cpd)) => {
             parts.push(("keygen.primitive_columns".into(), h(&format!("{:?}", cpd.primitive_columns))));
